@@ -164,6 +164,17 @@ pub fn sgr_bfs_system() -> WinconSys {
         gs.push("31");
         sys.push(seq_of(&gs), &[]);
     }
+    // sequences abandoned half-way (ESC restart, CAN, SUB) and then a complete one: the abandoned
+    // part must leave nothing behind
+    for t in [
+        &b"\x1b[4:3\x1b[31m"[..],
+        b"\x1b[38:2:1:2\x18\x1b[1m",
+        b"\x1b[58:5\x1a\x1b[44m",
+        b"\x1b[1;38;5\x1b[3m",
+        b"\x1b[:\x1b[m",
+    ] {
+        sys.push(t.to_vec(), &[]);
+    }
     // non-SGR sequences: must change nothing
     for t in [
         &b"\x1b[H"[..],
